@@ -1031,7 +1031,8 @@ class Columns(Widget, WidgetContainerMixin, WidgetContainerListContentsMixin):
             return None
 
         widths, _, size_args = self.get_column_sizes(size, focus=True)
-        if len(widths) <= self.focus_position:
+        if len(widths) <= self.focus_position or widths[self.focus_position] <= 0:
+            # the focus column is not displayed (render() hides a column of width 0): no cursor either
             return None
 
         if (coords := w.get_cursor_coords(size_args[self.focus_position])) is not None:
